@@ -7,6 +7,7 @@ import (
 	"sort"
 	"strings"
 
+	"golang.org/x/tools/go/callgraph"
 	"golang.org/x/tools/go/ssa"
 
 	"rjverif/internal/core"
@@ -198,6 +199,9 @@ func C15(x *Ctx, r *core.Result) {
 			f.OK(1)
 		case x.fieldNeverReadStale(st, i):
 			f.OK(1)
+		case x.fieldInert(st, i):
+			f.OK(1)
+			f.Sample("field " + n + ": its value flows only back into itself and into functions outside the reading API (a counter)")
 		default:
 			r.Undecided(f, "field "+n, w.Pos(st.Field(i).Pos()), "field "+n+" is not covered by any discipline rule: its stale value may influence results")
 		}
@@ -256,6 +260,12 @@ func (x *Ctx) containerWriters(r *core.Result, rs *core.RuleStat, st *types.Stru
 							} else {
 								kind = "assign"
 							}
+						case *ssa.Const:
+							if v.Value == nil {
+								kind = "assign-nil" // drops the reference; nothing that was returned earlier is touched
+							} else {
+								kind = "assign"
+							}
 						default:
 							kind = "assign"
 						}
@@ -270,6 +280,10 @@ func (x *Ctx) containerWriters(r *core.Result, rs *core.RuleStat, st *types.Stru
 					continue
 				}
 				rs.Instances++
+				if kind == "assign-nil" {
+					rs.OK(1)
+					continue
+				}
 				k := fnKey(fn) + ":" + field
 				if allowed[k] != kind {
 					// a private helper inherits the permission of its callers when all of them have it
@@ -475,4 +489,91 @@ func (x *Ctx) soleOwner(fn *ssa.Function, ok func(*ssa.Function) bool) string {
 		return owner
 	}
 	return ""
+}
+
+
+// fieldInert: whatever is loaded from the field flows only into stores to the same field, or into results of
+// functions that the readers never call (a statistics counter read by String()): it cannot influence a result of
+// ReadValue / ReadObject / ReadArray or of the handler methods.
+func (x *Ctx) fieldInert(st *types.Struct, idx int) bool {
+	w := x.W
+	funcs := w.SrcFuncs()
+	scope := map[*ssa.Function]bool{}
+	for _, f := range funcs {
+		scope[f] = true
+	}
+	isLoad := func(v ssa.Value) bool {
+		ld, ok := v.(*ssa.UnOp)
+		if !ok || ld.Op != token.MUL {
+			return false
+		}
+		fa, ok := ld.X.(*ssa.FieldAddr)
+		return ok && structOfType(fa.X.Type()) == st && fa.Field == idx
+	}
+	t := &ssarules.Taint{Funcs: scope, CG: w.CG(), IsSource: isLoad, Arith: true, ThroughLoad: func(types.Type) bool { return false }}
+	t.Run()
+	// the reading API and everything it reaches
+	var roots []*ssa.Function
+	for _, n := range []string{"ValueReader.ReadValue", "ValueReader.ReadObject", "ValueReader.ReadArray", "ValueReader.HandleArrayValue", "ValueReader.HandleObjectValue", "ReadValue", "ReadObject", "ReadArray"} {
+		if fn := x.Func(n); fn != nil {
+			roots = append(roots, fn)
+		}
+	}
+	reach := w.Reachable(roots, func(e *callgraph.Edge) bool { return w.InLib(e.Caller.Func) })
+	for _, fn := range funcs {
+		if !reach[fn] {
+			continue
+		}
+		for _, b := range fn.Blocks {
+			for _, ins := range b.Instrs {
+				switch v := ins.(type) {
+				case *ssa.If:
+					if t.Tainted[v.Cond] {
+						return false
+					}
+				case *ssa.Return:
+					for _, res := range v.Results {
+						if t.Tainted[res] {
+							return false
+						}
+					}
+				case *ssa.Store:
+					if t.Tainted[v.Val] {
+						fa, ok := v.Addr.(*ssa.FieldAddr)
+						if !(ok && structOfType(fa.X.Type()) == st && fa.Field == idx) {
+							if _, isAlloc := v.Addr.(*ssa.Alloc); !isAlloc {
+								return false
+							}
+						}
+					}
+				case *ssa.MapUpdate:
+					if t.Tainted[v.Key] || t.Tainted[v.Value] {
+						return false
+					}
+				case *ssa.IndexAddr:
+					if t.Tainted[v.Index] {
+						return false
+					}
+				case *ssa.Slice:
+					if (v.Low != nil && t.Tainted[v.Low]) || (v.High != nil && t.Tainted[v.High]) {
+						return false
+					}
+				case *ssa.MakeSlice:
+					if t.Tainted[v.Len] || t.Tainted[v.Cap] {
+						return false
+					}
+				case *ssa.Call:
+					if _, isB := v.Call.Value.(*ssa.Builtin); isB {
+						continue
+					}
+					for _, a := range v.Call.Args {
+						if t.Tainted[a] {
+							return false
+						}
+					}
+				}
+			}
+		}
+	}
+	return true
 }
